@@ -1,7 +1,7 @@
 (* C16 — Excluded providers are inert. *)
 From Coq Require Import List Arith Bool.
 Import ListNotations.
-From NJ Require Import Base Registry Classify Select Reorder Machine Spec Bind SelectProofs Refine Chain.
+From NJ Require Import Base Registry Classify Select Reorder Machine Spec Bind SelectProofs Refine Chain PreserveProofs.
 
 (* Run time: the behaviour of a bound chain is the reference semantics of its plan, and the plan
    (splan_of) is built from the included providers only.  Excluded providers have no run-time effect
@@ -41,3 +41,10 @@ Theorem C16_included_self_sufficient_partial : forall te funcs0 funcs,
   forall k p, getp funcs k = Some p -> p_include p = true -> checks_ok te funcs p = true.
 Proof. intros te funcs0 funcs H k p Hk Hi. destruct (select_sound te funcs0 funcs H) as [Hs _]. apply (Hs k p Hk Hi). Qed.
 Print Assumptions C16_included_self_sufficient_partial.
+
+(* Excluding is marking: the providers Bind leaves out stay in the working list (unchanged, not
+   included); nothing is reordered around them. *)
+Theorem C16_exclusion_is_a_mark : forall te funcs1 funcs,
+  select te funcs1 = Ok funcs -> map p_s funcs = map p_s funcs1.
+Proof. exact select_preserves. Qed.
+Print Assumptions C16_exclusion_is_a_mark.
